@@ -69,6 +69,8 @@ fn fit_hh(f: &str, x: &[f64], y: &[f64], w: Option<&[f64]>, o: Option<&[f64]>, a
             if let Some(o) = o { g.set_offset(o); }
             g.set_tolerance(tol);
         }
+        // history 4: the configured (not yet fitted) object is cloned and the CLONE is fitted: a clone carries the whole configuration
+        let mut g = if history == 4 { g.clone() } else { g };
         let r = g.fit(x, y, maxit).map_err(|e| e.to_string());
         match r {
             Err(e) => Err(e),
@@ -136,11 +138,11 @@ pub fn replay(cases: &str, verdicts: &str) {
         }
         // the same problem on an object with a history (an inspected earlier fit on a narrower design; a failed fit): every reported
         // quantity is that of the fresh fit
-        for hist in [1u8, 2, 3] {
+        for hist in [1u8, 2, 3, 4] {
             let rh = fit_hh(fam, &x, &y, wopt, oopt, alpha, 1e-13, 200, hist);
             let okh = match &rh { Some(Ok(fh)) => rel_ok(&fh.coef, &ft.coef, 1e-8) && rel_ok(&fh.se, &ft.se, 1e-7) && rel_ok(&fh.cov, &ft.cov, 1e-7) && fh.cov.len() == p * p
                 && (fh.dev - ft.dev).abs() <= 1e-8 * ft.dev.abs().max(1e-9) && (fh.disp - ft.disp).abs() <= 1e-8 * ft.disp.abs().max(1e-9) && rel_ok(&fh.pred, &ft.pred, 1e-8), _ => false };
-            v.check(okh, if hist == 1 { "same results after an inspected earlier fit" } else if hist == 2 { "same results after a failed fit" } else { "same results configured through the public fields" }, &class, &c,
+            v.check(okh, if hist == 1 { "same results after an inspected earlier fit" } else if hist == 2 { "same results after a failed fit" } else if hist == 3 { "same results configured through the public fields" } else { "same results from a clone of the configured object" }, &class, &c,
                     json!(match &rh { Some(Ok(fh)) => json!({"se": fjs(&fh.se), "fresh_se": fjs(&ft.se)}), Some(Err(e)) => json!(e), None => json!("panic") }));
         }
         // the Gaussian family in other units: responses and offsets times s = 2^-40 / 2^30 scale coefficients, predictions and standard
